@@ -3,7 +3,8 @@ import Bptk.Core.C08
 `lake env lean --run Drive/C08.lean < lines`
 
 requests
-  cfg <i> <a> <f> <o>             mechanism facts (0/1)
+  cfg <i> <a> <f> <o> <r>         mechanism facts (0/1)
+  sreset | raweq <n> <expr>       scenario-level cache reset; raw write to model.equations (scenario.setup_constants)
   new <dt-hex> <kinds>            kinds: comma list over `s` (stock) `f` (flow) `o` (other), element i = i-th entry
   seteq <n> <expr> | setinit <n> <expr> | addeq <n> <expr> | reset
   setpoints <p> <xhex>:<yhex>,…   `model.points["p<p>"] = [[x,y],…]` (no cache reset — a plain dictionary write)
@@ -199,7 +200,7 @@ structure DS where
 
 def stepLine (d : DS) (line : String) : DS × String :=
   match line.trimAscii.toString.splitOn " " with
-  | ["cfg", i, a, f, o] => ({ d with c := ⟨i == "1", a == "1", f == "1", o == "1"⟩ }, "ok")
+  | ["cfg", i, a, f, o, r] => ({ d with c := ⟨i == "1", a == "1", f == "1", o == "1", r == "1"⟩ }, "ok")
   | ["new", dt, kinds] =>
       match parseHex dt, parseKinds kinds with
       | some dt, some ks => ({ d with s := mkInit dt ks }, "ok")
@@ -214,6 +215,10 @@ def stepLine (d : DS) (line : String) : DS × String :=
       | some n, some e => ({ d with s := step d.c fOps d.s (.addEq n e) }, "ok")
       | _, _ => (d, "bad-op")
   | ["reset"] => ({ d with s := step d.c fOps d.s .reset }, "ok")
+  | ["sreset"] => ({ d with s := step d.c fOps d.s .sreset }, "ok")
+  | ["raweq", n, e] => match n.toNat?, parseExpr e with
+      | some n, some e => ({ d with s := step d.c fOps d.s (.rawEq n e) }, "ok")
+      | _, _ => (d, "bad-op")
   | ["setpoints", p, tbl] => match p.toNat?, parsePoints tbl with
       | some p, some tbl =>
           if tbl.isEmpty then (d, "bad-op") else ({ d with s := step d.c fOps d.s (.setPoints p (interpF tbl)) }, "ok")
@@ -246,4 +251,4 @@ partial def loop (h : IO.FS.Stream) (d : DS) : IO Unit := do
   loop h d'
 
 def main : IO Unit := do
-  loop (← IO.getStdin) { c := ⟨true, true, true, true⟩, s := mkInit 1.0 [] }
+  loop (← IO.getStdin) { c := ⟨true, true, true, true, true⟩, s := mkInit 1.0 [] }
